@@ -14,6 +14,7 @@ import GocoinV.Model.NetParseFacts
 import GocoinV.Model.NetParseLocks
 import GocoinV.Proofs.C18
 import GocoinV.Proofs.C18State
+import GocoinV.Proofs.C09
 namespace GocoinV.Props.C18
 open GocoinV GocoinV.NetParse
 
@@ -158,13 +159,35 @@ example :
   | 1, _ => decide
 
 /-- UNREACHABILITY of core.go FetchMessage's `panic("ERROR: hdr_len > 24 …")` under c.Mutex (whitelisted in
-    the lock scan). The loop runs while hdr_len < 24, reads into the slice `hdr[hdr_len:24]` and adds the
-    returned count n to hdr_len. ASSUMPTION (the net.Conn.Read contract, through common.SockRead which
-    only shortens the buffer): 0 ≤ n ≤ len(buf) = 24 - hdr_len. Then hdr_len never exceeds 24. -/
-theorem fetch_hdrlen_panic_unreachable (hdrLen n : Nat) (h : hdrLen < 24) (hn : n ≤ 24 - hdrLen) :
-    ¬ (hdrLen + n > 24) := by omega
+    the lock scan), for the header loop as modelled by `hdrReads` (the loop condition and the slice handed to the
+    socket are source facts of the regenerated skeleton, second conjunct): over any run of reads that keeps the
+    net.Conn.Read contract - ASSUMED, not checkable here: 0 ≤ n ≤ len(buf) = 24 - hdr_len, through common.SockRead
+    which only shortens the buffer - starting anywhere at or below 24, hdr_len never passes 24. `hdrReads` is not
+    run by the oracle: the harness's wire stream feeds complete and cut frames through the real loop, whose
+    socket stub keeps the contract. -/
+theorem fetch_hdrlen_panic_unreachable (reads : List Nat) (hdrLen : Nat) (h : hdrLen ≤ 24)
+    (hc : readsWithin reads hdrLen = true) :
+    (∃ hl, hdrReads reads hdrLen = some hl ∧ hl ≤ 24) ∧
+    ("for: ; c.recv.hdr_len < 24; " ∈ Gen.NetFacts.FetchMessage ∧
+     "slice: c.recv.hdr[c.recv.hdr_len:24]" ∈ Gen.NetFacts.FetchMessage ∧
+     "guard: !(c.recv.hdr_len > 24)" ∈ Gen.NetFacts.FetchMessage) := by
+  refine ⟨?_, by decide +kernel⟩
+  induction reads generalizing hdrLen with
+  | nil => exact ⟨hdrLen, rfl, h⟩
+  | cons n rs ih =>
+    unfold hdrReads
+    unfold readsWithin at hc
+    by_cases h24 : hdrLen ≥ 24
+    · simp only [h24, ↓reduceIte]; exact ⟨hdrLen, rfl, h⟩
+    · simp only [h24, decide_false, Bool.false_or, Bool.and_eq_true, decide_eq_true_eq, ↓reduceIte] at hc ⊢
+      have : ¬ hdrLen + n > 24 := by omega
+      simp only [this, ↓reduceIte]
+      exact ih (hdrLen + n) (by omega) hc.2
 
-example : ∃ hdrLen n : Nat, hdrLen < 24 ∧ n ≤ 24 - hdrLen ∧ hdrLen + n = 24 := ⟨20, 4, by decide⟩
+/-- non-vacuity: 20 bytes, then the last 4 - within the contract, the header is complete; a read that returns 5
+    bytes for the 4-byte slice breaks the contract and is exactly what the panic is there for -/
+example : readsWithin [20, 4] 0 = true ∧ hdrReads [20, 4] 0 = some 24 ∧
+    readsWithin [20, 5] 0 = false ∧ hdrReads [20, 5] 0 = none := by decide
 
 /-- ProcessBlockTxn transaction loop: total, terminates within the payload. -/
 theorem blocktxn_total (txSize : Bytes → Nat) (hts : ∀ b, txSize b ≤ b.length) (pl : Bytes) (hl : pl.length < 2^62) :
@@ -224,10 +247,17 @@ theorem witnesses_now_rejected :
     (processCmpctBlock tenOrNothing wCmpct).out.isPanic = false ∧
     (fetchMessage fenv wFetch).out.isPanic = false := by decide +kernel
 
-/-- the source facts the model relies on are the ones regenerated from the current source in this
-    run: skeletons (guards, index / slice expressions, Lock / Unlock / return, decoder and penalty
-    calls) of the handlers repaired by C18's fixes, Run's command table and gate, Run's inline `authack` case. (All 24 lists
-    are compared in Model/NetParseFacts.lean, which this module imports.) -/
+/-- the source facts the model was WRITTEN AGAINST are the ones regenerated from the current source in this
+    run: skeletons of the handlers repaired by C18's fixes, Run's command table and gate, Run's inline `authack` case.
+    (All 26 lists are compared in Model/NetParseFacts.lean, which this module imports.) A skeleton is, in source
+    order and canonical spelling: every `if` / guard / `for` / switch condition, every index / slice on the peer's
+    bytes, Lock / Unlock / return, decoder and penalty calls, and - since the second audit - every assignment to a
+    local whose value reaches a guard, a loop condition or such an index (`asg:`: offset arithmetic, which result of
+    a decoder goes where, an update before or after the test that follows) and every reset of a field to nil
+    (`set:`). What the lists do NOT pin: assignments to fields and to locals that feed only non-leaving `if`s,
+    arguments of calls that are not in the decoder / penalty list, anything three or more unexported calls deep, and
+    the MEANING of a fact - the model is a hand translation, and an edit that moves a fact is an alarm to re-read
+    it, not a proof obligation about it. The differential run is the tie for all of that. -/
 theorem source_facts_current :
     Gen.NetFacts.HandleVersion = Expected.HandleVersion ∧ Gen.NetFacts.ProcessInv = Expected.ProcessInv ∧
     Gen.NetFacts.ProcessGetBlockTxn = Expected.ProcessGetBlockTxn ∧
@@ -451,14 +481,48 @@ theorem conn_maps_tracked :
       Gen.NetFacts.connMapWrites "counters" [("OneConnection.Tick", [true]), ("OneConnection.cntInc", [])] true = some true := by
   decide +kernel
 
-/-- TRUSTED BLOCKS. chain.PostCheckBlock's front with btc.Block.BuildTxListExt behind it, for a block whose
-    transaction list has not been built, never panics - for any bytes a peer sends behind the header, any
-    transaction decoder, and whether or not the block carries the Trusted mark (for which the coinbase tests,
-    `len(bl.Txs) == 0` among them, are skipped): the merkle computation's `mtr[len(mtr)-1]` always has at
-    least one element, because BuildTxListExt's head refuses a txn_count of zero. -/
-theorem postcheck_total (newTx : Bytes → Option Nat) (trusted : Bool) (raw : Bytes) (cbOk merkleOk : Bool) :
+/-- TRUSTED BLOCKS. chain.PostCheckBlock's front with btc.Block.BuildTxListExt behind it never panics - for any
+    bytes a peer sends behind the header, any transaction decoder that reports no more bytes than it was given
+    (`Within`; otherwise the slice `bl.Raw[offs:offs+n]` is out of range - second example below), and whether or not
+    the block carries the Trusted mark (for which the coinbase tests, `len(bl.Txs) == 0` among them, are skipped): the
+    merkle computation's `mtr[len(mtr)-1]` always has at least one element, because BuildTxListExt's head refuses a
+    txn_count of zero. ENTRY CONDITION, built into the model and NOT proved here: the block object's transaction
+    list has not been built (bl.Txs == nil, bl.TxCount == 0) - true after btc.NewBlockHeader, and restored by each
+    failure path of the three callers; those resets are source facts of the regenerated skeletons
+    (`postcheck_entry_resets_current`), what they restore is observed by the harness only (corrupt-assembly scenario). -/
+theorem postcheck_total (newTx : Bytes → Option Nat) (hw : NetParse.State.Within newTx) (trusted : Bool) (raw : Bytes)
+    (cbOk merkleOk : Bool) :
     (NetParse.State.postCheck true newTx trusted raw cbOk merkleOk).isPanic = false :=
-  NetParse.State.postCheck_total newTx trusted raw cbOk merkleOk
+  NetParse.State.postCheck_total newTx hw trusted raw cbOk merkleOk
+
+/-- the hypothesis holds for the decoder the oracle runs (C09's wire model of btc.NewTx) … -/
+theorem postcheck_total_wire (trusted : Bool) (raw : Bytes) (cbOk merkleOk : Bool) :
+    (NetParse.State.postCheck true (fun b => (Wire.decodeTx b).map (·.2)) trusted raw cbOk merkleOk).isPanic = false := by
+  apply postcheck_total
+  intro b n h
+  cases hd : Wire.decodeTxFull b with
+  | none => simp [Wire.decodeTx, hd] at h
+  | some d =>
+    simp only [Wire.decodeTx, hd, Option.map_some, Option.some.injEq] at h
+    obtain ⟨rest, hb, hc, _, _⟩ := Wire.decodeTxFull_spec hd
+    have hl := congrArg List.length hb
+    simp only [List.length_append] at hl
+    omega
+
+/-- … and is needed: a decoder that claims 200 bytes of a 20-byte rest makes the loop's slice panic; the trivial
+    decoder (always `none`) satisfies it -/
+example :
+    NetParse.State.postCheck true (fun _ => some 200) false (List.replicate 80 0x11 ++ [1] ++ List.replicate 19 0) true true =
+      .panic "BuildTxListExt: bl.Raw[offs:offs+n]" ∧
+    NetParse.State.Within (fun _ => none) := ⟨by decide +kernel, by intro b n h; cases h⟩
+
+/-- the resets that re-establish postcheck_total's entry condition after a failed attempt are in the regenerated
+    skeletons of the three callers (dropping one - leaving the stale, shortened transaction list on a block object
+    that will be tried again - moves a fact) -/
+theorem postcheck_entry_resets_current :
+    "set: $6.Block.Txs = nil" ∈ Gen.NetFacts.netBlockReceived ∧
+    "set: $3.Block.Txs = nil" ∈ Gen.NetFacts.ProcessCmpctBlock ∧
+    "set: $10.Block.Txs = nil" ∈ Gen.NetFacts.ProcessBlockTxn := by decide +kernel
 
 /-- … and that test is what it hangs on: with the head testing the offset only (as Block.UpdateContent, the
     other decoder of the same field, does) an 80-byte header followed by txn_count = 0 and padding - sendable
